@@ -116,7 +116,11 @@ def run_case(case, arrays, classes, mon, viol, skip=()):
                 'configs_skipped_after_report', 0) + 1
             continue
         pas = make_pas(arrays, case)
-        mark(dict(id='%d|%s' % (case['idx'], cls), cls=cls, idx=case['idx']))
+        def stage(what):
+            # breadcrumb for crash attribution: which call was under way
+            mark(dict(id='%d|%s' % (case['idx'], cls), cls=cls,
+                      idx=case['idx'], stage=what))
+        stage('construct')
         try:
             nn = c01.construct(cls, dim, pas, rs, knobs, False, False)
         except Exception as e:
@@ -158,6 +162,7 @@ def run_case(case, arrays, classes, mon, viol, skip=()):
                         pa.remove_particles(idx)
                         mon['particles_removed'] = mon.get(
                             'particles_removed', 0) + len(idx)
+                stage('update')
                 nn.update()
                 mon['count_changes'] = mon.get('count_changes', 0) + 1
             before = [rows(pa) for pa in pas]
@@ -166,6 +171,7 @@ def run_case(case, arrays, classes, mon, viol, skip=()):
             for k, pa in enumerate(pas):
                 n = pa.get_number_of_particles()
                 ind = scratch if case['idx'] % 2 else LongArray()
+                stage('indices')
                 nn.get_spatially_ordered_indices(k, ind)
                 got = ind.get_npy_array().copy()
                 mon['index_lists'] = mon.get('index_lists', 0) + 1
@@ -178,6 +184,7 @@ def run_case(case, arrays, classes, mon, viol, skip=()):
                             got.max() if len(got) else None))
                     break
                 if not via_solver:
+                    stage('reorder')
                     nn.spatially_order_particles(k)
             else:
                 if via_solver:
@@ -188,11 +195,14 @@ def run_case(case, arrays, classes, mon, viol, skip=()):
                     sol = Solver.__new__(Solver)
                     sol.particles = pas
                     sol.nnps = nn
+                    stage('reorder+update')
                     sol.reorder_particles()
                     mon['reorders_via_solver'] = mon.get(
                         'reorders_via_solver', 0) + 1
                 else:
+                    stage('update')
                     nn.update()
+                stage('compare')
                 for k, pa in enumerate(pas):
                     after, uid = rows(pa)
                     mon['arrays_compared'] = mon.get('arrays_compared', 0) + 1
@@ -215,6 +225,7 @@ def run_case(case, arrays, classes, mon, viol, skip=()):
                             'num_real_particles=%d' % (k, tg.tolist()[:24],
                                                        nr))
                 # neighbours again exact
+                stage('queries')
                 snap = c01.snapshot(pas)
                 orc = c01.Oracle(snap, rs)
                 m2 = c01.Mon()
@@ -292,6 +303,17 @@ def run(tier):
     for c in crashes:
         mk = c['mark']
         if c['status'] == 'timeout':
+            continue
+        if mk['cls'] == c01.SSFC and mk.get('stage') in (
+                'construct', 'update', 'queries'):
+            # died while building / querying the neighbour structure (the
+            # listed out-of-bounds reads of this class, fatal without the
+            # sanitizer's red zones), not in the re-ordering
+            v.violation('stratified-sfc:neighbours-unreliable',
+                        '%s crashed in %s of case %s: %s' % (
+                            mk['cls'], mk['stage'], mk['idx'],
+                            c['detail'][-200:]),
+                        dict(idx=mk['idx'], cls=mk['cls']))
             continue
         v.violation('%s:crash' % c01.family(mk['cls']),
                     '%s crashed while re-ordering case %s: %s' % (
